@@ -190,9 +190,9 @@ def run_cases(ck: Check, n: int):
             promoted.interface_width = grid.typical_discretization
         flat = flat_of(promoted)
         modes = promoted.modes if hasattr(promoted, "amplitudes") else 0
-        adjust = bool(kw.get("adjust_values", False))
-        # levels as the code determines them
+        # levels as the code determines them; intensities are only fitted when the range is non-zero
         x0 = rec["x0"]
+        adjust = bool(kw.get("adjust_values", False)) and len(x0) == len(flat) - len(cons) + 2
         if adjust:
             lv_min, lv_rng = x0[-2], x0[-1]
             lv_max = rec["ub"][-2]
